@@ -713,6 +713,9 @@ def probe_slp(spec):
             if k.startswith('p') and so.get('ordered'):
                 # low / base / high scenarios of one price curve (the present is shared): cost vectors ordered entry by entry
                 w[kf:] = np.abs(w[kf:]) * [0.5, 1.5, 1.0, 2.0][s % 4]
+            elif k.startswith('p') and so.get('decades'):
+                # scenarios whose prices differ by an order of magnitude (scarcity prices, another currency unit)
+                w[kf:] = w[kf:] * [10.0, 0.125, 3.0][s % 3] + rs.randint(-8, 9, size=T - kf) / 4.0
             elif k.startswith('p') and not so.get('identical'):
                 w[kf:] = np.round((w[kf:] * rs.choice([0.5, 0.75, 1.25, 1.5, 2.0]) + rs.randint(-8, 9, size=T - kf) / 4.0) * 8) / 8.0
             d[k] = w
